@@ -4,6 +4,7 @@ import M3d.Lemmas.CollideTri
 # C07 — capsule phantom removal, `profileCollider`, parity for convex cells, ball queries, cone normal
 -/
 set_option linter.unusedSectionVars false
+set_option linter.unusedVariables false
 namespace M3d.Col
 
 variable {K : Type} [Field K] [LinearOrder K] [IsStrictOrderedRing K]
